@@ -15,7 +15,7 @@ RULE = ("2-3 actors open streams concurrently (shell = opened and closed, stream
 ASSUMPTIONS = ["ids are compared at the device: a stream is live from its OPEN until both sides sent CLSE (abandoned streams stay live)",
                "in the asyncio twin the allocation contains no await, so tasks cannot interleave inside it"]
 SHARDS = {"quick": 16, "thorough": 16}
-TIME_BUDGET = {"quick": 60, "thorough": 900}
+TIME_BUDGET = {"quick": 300, "thorough": 1800}
 FLOORS = {"quick": {"schedules": 4000, "opens": 15000, "wraparounds": 500, "line_preemptions_in_open": 4000, "distinct": 3000}, "thorough": {"schedules": 30000, "opens": 100000, "wraparounds": 4000}}
 
 STARTS = [0, 1, 0xFFFFFFFC, 0xFFFFFFFD, 0xFFFFFFFE, 0x7FFFFFFF, 0xFFFFFFFB]
